@@ -8,12 +8,13 @@ from pbmon.oracle import c10_limits as O
 PROPERTY = "C10"
 NSHARDS = {"quick": 4, "thorough": 16}
 CLAUSES = {
-    "C10.bracket": 150000,   # limits of pop_t bracket the GEBVs of pop_t and of every later population
-    "C10.monotone": 60000,    # usl never increases / lsl never decreases (against every earlier generation)
-    "C10.fixed": 20000,      # all loci fixed (integer counts) => usl == lsl == common GEBV
-    "C10.lost": 25000,       # integer count 0 stays 0; reported frequency exactly 0/1 stays exactly 0/1
+    "C10.bracket": 300000,   # limits of pop_t bracket the GEBVs of pop_t and of every later population
+    "C10.monotone": 150000,   # usl never increases / lsl never decreases (against every earlier generation)
+    "C10.fixed": 60000,      # all loci fixed (integer counts) => usl == lsl == common GEBV
+    "C10.lost": 60000,       # integer count 0 stays 0; reported frequency exactly 0/1 stays exactly 0/1
 }
-HOOKS_REQUIRED = ["generations with more than 4096 taxa",
+HOOKS_REQUIRED = ["matings with a cross table whose dtype cannot hold parent index * nvrnt",
+                  "generations with more than 4096 taxa",
                   "histories on founders never grouped along the variant axis (interleaved chromosomes)",
                   "matings whose named parents are a proper subset of the matrix mated from", "mate calls", "select_taxa calls", "concat_taxa calls", "usl/lsl calls",
                   "fixed populations with ploidy*n not a power of two",
@@ -32,7 +33,10 @@ RULE = ("seeded closed breeding histories driven through the real classes: found
         "correctly rounded frequency vector) scaled and unscaled.  Non-trivial: at least one transition and one segregating "
         "or non-zero-effect locus; 30 % of the founder matrices are never grouped along the variant axis and store their "
         "chromosomes interleaved with unsorted positions; 3 % of the mating histories (15 % of the chains) contain one "
-        "generation of 4097-8200 taxa; distinct = digest of founders, effects and the executed operation list.")
+        "generation of 4097-8200 taxa; cross tables (and select_taxa index arrays, count vectors) are passed in every integer "
+        "dtype int8...uint32/int64 that can hold their values, C-/F-ordered, strided or reversed views; 10 % of the mating "
+        "histories are 'wide' (100-330 taxa x 100-330 loci, sizes 127/128/255/256/257/330) so that parent index * nvrnt "
+        "passes the 8- and 16-bit limits; distinct = digest of founders, effects and the executed operation list.")
 ASSUME = ["the genomic breeding value of an individual is intercept + sum_j genotype_j * u_a[j]; the intercept is whatever "
           "gebv(...).unscale() adds (checked to be one constant per trait), and usl/lsl with unscale=True are compared with "
           "those values, usl/lsl with unscale=False with the values without intercept (gebv_numpy)",
@@ -283,6 +287,33 @@ def split_positive(g, total, parts):
     return numpy.diff(numpy.r_[0, cuts, total]).astype("int64")
 
 
+INT_DTYPES = ["int8", "uint8", "int16", "uint16", "int32", "uint32", "int64"]
+NARROW_ICLS = "narrow-integer cross table (parent index * nvrnt exceeds its dtype)"
+
+
+def index_array(g, a, narrow_bias=0.35, need=None):
+    """The same integer values in one of the integer dtypes that can hold them (``need`` = largest value that must fit),
+    C-ordered, F-ordered or as a strided / reversed view of a larger buffer.  Returns (array, dtype name, layout)."""
+    a = numpy.asarray(a, dtype="int64")
+    mx = int(max(a.max(initial=0), need or 0))
+    fit = [d for d in INT_DTYPES if numpy.iinfo(d).max >= mx]
+    r = g.random()
+    dt = fit[0] if r < narrow_bias else (str(g.choice(fit)) if r < 0.7 else "int64")
+    b = a.astype(dt)
+    lay = str(g.choice(["C", "C", "F", "strided", "reversed"]))
+    if lay == "F" and b.ndim == 2:
+        b = numpy.asfortranarray(b)
+    elif lay == "strided":
+        buf = numpy.full(tuple(2 * k + 1 for k in b.shape), numpy.iinfo(dt).max, dtype=dt)
+        sl = tuple(slice(1, None, 2) for _ in b.shape)
+        buf[sl] = b; b = buf[sl]
+    elif lay == "reversed":
+        sl = tuple(slice(None, None, -1) for _ in b.shape)
+        b = numpy.ascontiguousarray(b[sl])[sl]
+    assert numpy.array_equal(b.astype("int64"), a)
+    return b, dt, lay
+
+
 def do_mate(ctx, g, protos, pg, gref, size, force=None):
     """One mating step among members of ``pg``; returns (progeny, op description, site)."""
     name, npar = force if force else PROTOS[int(g.integers(len(PROTOS)))]
@@ -299,7 +330,9 @@ def do_mate(ctx, g, protos, pg, gref, size, force=None):
         xc = g.choice(pool, (ncross, npar))                    # selfs / repeated parents possible
     else:
         xc = numpy.stack([g.choice(pool, npar, replace=False) for _ in range(ncross)])
-    xc = numpy.asarray(xc, dtype="int64")
+    xc64 = numpy.asarray(xc, dtype="int64")
+    # cross tables arrive in every integer dtype and memory layout (they come from optimisers, files, user code)
+    xc, xdt, xlay = index_array(g, xc64)
     if g.random() < 0.8:
         nmating = 1 if g.random() < 0.5 else numpy.ones(ncross, dtype="int64")
         nprogeny = split_positive(g, size, ncross)
@@ -307,9 +340,22 @@ def do_mate(ctx, g, protos, pg, gref, size, force=None):
             nprogeny = int(size)
     else:
         nmating = g.integers(1, 4, ncross).astype("int64"); nprogeny = g.integers(1, 6, ncross).astype("int64")
+    tot = int(numpy.sum(numpy.broadcast_to(nmating, (ncross,)) * numpy.broadcast_to(nprogeny, (ncross,))))
+    cdt = ["int64", "int64"]
+    if g.random() < 0.5:   # count vectors in other integer dtypes too (wide enough for every count, product and the total)
+        if isinstance(nmating, numpy.ndarray):
+            nmating, cdt[0], _ = index_array(g, nmating, narrow_bias=0.2, need=tot)
+        if isinstance(nprogeny, numpy.ndarray):
+            nprogeny, cdt[1], _ = index_array(g, nprogeny, narrow_bias=0.2, need=tot)
     nself = int(g.choice([0, 0, 0, 0, 0, 0, 1, 2]))
-    op = {"op": "mate", "protocol": name, "parents": rule, "xconfig": xc.tolist(), "nmating": numpy.asarray(nmating).tolist(),
-          "nprogeny": numpy.asarray(nprogeny).tolist(), "nself": nself}
+    over = int(xc64.max()) * int(pg.nvrnt) + int(pg.nvrnt) - 1 > numpy.iinfo(xdt).max
+    op = {"op": "mate", "protocol": name, "parents": rule, "xconfig": xc64.tolist(), "xconfig_dtype": xdt, "xconfig_layout": xlay,
+          "index_times_nvrnt_exceeds_dtype": bool(over), "nmating": numpy.asarray(nmating).tolist(),
+          "nprogeny": numpy.asarray(nprogeny).tolist(), "count_dtypes": cdt, "nself": nself}
+    ctx.sumnote("cross tables: dtype " + xdt); ctx.sumnote("cross tables: layout " + xlay)
+    if over:
+        ctx.hook("matings with a cross table whose dtype cannot hold parent index * nvrnt")
+        ctx.sumnote("cross tables whose dtype cannot hold parent index * nvrnt: " + xdt)
     out = protos[name].mate(pg, xc, nmating, nprogeny, nself=nself)
     ctx.hook("mate calls"); ctx.sumnote("mate calls: " + name)
     return out, op, name + ".mate"
@@ -317,10 +363,12 @@ def do_mate(ctx, g, protos, pg, gref, size, force=None):
 
 def do_subset(ctx, g, pg, gref, size):
     rule = ["best", "worst", "random", "random"][int(g.integers(4))]
-    ix = select(g, gref, size, rule)
+    ix64 = select(g, gref, size, rule)
+    ix, idt, ilay = index_array(g, ix64)
     out = pg.select_taxa(ix)
-    ctx.hook("select_taxa calls")
-    return out, {"op": "select_taxa", "rule": rule, "indices": ix.tolist()}, O.defining_class(pg, "select_taxa") + ".select_taxa"
+    ctx.hook("select_taxa calls"); ctx.sumnote("select_taxa index arrays: dtype " + idt)
+    return (out, {"op": "select_taxa", "rule": rule, "indices": ix64.tolist(), "index_dtype": idt, "index_layout": ilay},
+            O.defining_class(pg, "select_taxa") + ".select_taxa")
 
 
 # ---------------------------------------------------------------- one history
@@ -336,6 +384,9 @@ def case_history(ctx, c, family="hist"):
     else:
         n0 = int(g.integers(2, 31)) if g.random() < 0.8 else int(g.choice([1, 2, 40, 49, 33]))
         m = int(g.integers(3, 41)) if g.random() < 0.85 else int(g.integers(1, 4))
+    wide = (not chain) and g.random() < 0.1   # sizes around the limits of 8- and 16-bit integers (index * nvrnt, n * nvrnt)
+    if wide:
+        n0 = int(g.choice([100, 127, 128, 130, 200, 256, 257, 330, 330])); m = int(g.choice([100, 113, 127, 128, 129, 200, 255, 256, 257, 330, 330]))
     ntrait = int(g.integers(1, 4))
     u, ucls = gen_effects(g, m, ntrait)
     mat0 = gen_founder_mat(g, n0, m, ploidy, fcls)
@@ -368,7 +419,8 @@ def case_history(ctx, c, family="hist"):
             break
         try:
             if kind == "mate":
-                new, op, site = do_mate(ctx, g, protos, pg, gref, pick_size(g))
+                new, op, site = do_mate(ctx, g, protos, pg, gref,
+                                        int(g.choice([128, 129, 200, 255, 256, 257, 330, 330])) if wide and g.random() < 0.6 else pick_size(g))
             elif kind == "subset":
                 if n == 1 and chain:
                     break
@@ -400,6 +452,7 @@ def case_history(ctx, c, family="hist"):
             ctx.raised("history step %s" % kind, e)
             continue
         icls_t = None
+        narrow = bool(op.get("index_times_nvrnt_exceeds_dtype") or (op.get("mating") or {}).get("index_times_nvrnt_exceeds_dtype"))
         if op.get("op") == "mate" and g.random() < 0.85:
             # the population a cross descends from is the set of parents named in the cross table: it is observed as a
             # generation of its own (selection step), the progeny then have to stay inside *its* limits and allele set
@@ -418,6 +471,8 @@ def case_history(ctx, c, family="hist"):
         t += 1
         history.append(op)
         pg = new
+        if narrow:
+            icls_t = NARROW_ICLS
         G, gref = read_generation(ctx, mon, model, has_unscale, genotyper, pg, t, op, site, g, icls=icls_t)
     seg = bool(numpy.any(mon.gens[0].present & ~mon.gens[0].fixed1)) or bool(numpy.any(u != 0))
     ctx.case("%s:%s" % (family, fcls if not chain else "ploidy %d/%s" % (ploidy, fcls)), mat0, u, beta, repr(history[1:]), trivial=(t == 0 or not seg))
